@@ -65,6 +65,10 @@ func init() {
 	c("bencode-assert-wrong", "C16.bencode.row", be, `d.FieldUTF8("separator", 1, d.StrAssert(":"))`, `d.FieldUTF8("separator", 1, d.StrAssert(";"))`, "arm:0")
 	c("mp-range-loop-bound", "C16.msgpack.row", mp, "for i := uint64(0); i < length; i++ {\n\t\t\t\t\td.FieldStruct(\"element\"", "for range length + 1 {\n\t\t\t\t\td.FieldStruct(\"element\"", "row:fixarray")
 
+	// cbor element loop (decision model)
+	c("cbor-array-offbyone", "C16.cbor.row", cb, "} else if i >= count {\n\t\t\t\t\t\tbreak\n\t\t\t\t\t}\n\t\t\t\t\td.FieldStruct(\"element\"", "} else if i > count {\n\t\t\t\t\t\tbreak\n\t\t\t\t\t}\n\t\t\t\t\td.FieldStruct(\"element\"", "major:4")
+	c("cbor-map-count-unguarded", "C16.cbor.indef", cb, "\t\t\t\t\t} else if i >= count {\n\t\t\t\t\t\tbreak\n\t\t\t\t\t}\n\t\t\t\t\td.FieldStruct(\"pair\"", "\t\t\t\t\t}\n\t\t\t\t\tif i >= count {\n\t\t\t\t\t\tbreak\n\t\t\t\t\t}\n\t\t\t\t\td.FieldStruct(\"pair\"", "major:5:count-not-bound")
+
 	// round 4: xml namespace scope stack, asn1 REAL
 	xm := "format/xml/xml.go"
 	c("xml-ns-order", "C16.xml.ns", xm, "for i := len(nss) - 1; i >= 0; i-- {\n\t\tns := nss[i]\n", "for _, ns := range nss {\n", "lookup:order")
